@@ -98,9 +98,18 @@ func Register(p *Prop) { Registry[p.ID] = p }
 
 // Note prints an observation of the running case to the parent (survives a later process death).
 func Note(format string, a ...any) {
+	noteMu.Lock()
+	defer noteMu.Unlock()
 	fmt.Fprintf(childOut, "NOTE %s\n", strings.ReplaceAll(fmt.Sprintf(format, a...), "\n", " "))
+	if f, ok := childOut.(*bufio.Writer); ok {
+		f.Flush()
+	}
 }
 
+// NoteFlush is Note (kept as a separate name at call sites where surviving a crash matters).
+func NoteFlush(format string, a ...any) { Note(format, a...) }
+
+var noteMu sync.Mutex
 var childOut io.Writer = os.Stdout
 
 func Hash(parts ...string) string {
@@ -132,13 +141,17 @@ func ChildMain() {
 			fmt.Fprintf(os.Stderr, "unknown property %q\n", s.Prop)
 			os.Exit(3)
 		}
+		noteMu.Lock()
 		fmt.Fprintf(out, "BEGIN %s\n", s.ID)
 		out.Flush()
+		noteMu.Unlock()
 		res := runWithWatchdog(p, s, out)
 		res.ID = s.ID
 		b, _ := json.Marshal(res)
+		noteMu.Lock()
 		fmt.Fprintf(out, "RESULT %s\n", b)
 		out.Flush()
+		noteMu.Unlock()
 	}
 }
 
@@ -563,6 +576,10 @@ func CheckMain(propID, tier string, exe, raceExe, verifDir string) int {
 			continue
 		}
 		unlisted++
+		if unlisted > 6 {
+			exit = 1
+			continue
+		}
 		os.MkdirAll(violDir, 0o755)
 		var sc Scenario
 		for _, s := range scs {
@@ -573,9 +590,12 @@ func CheckMain(propID, tier string, exe, raceExe, verifDir string) int {
 		path := filepath.Join(violDir, v.ID+".json")
 		b, _ := json.MarshalIndent(map[string]any{"property": p.ID, "tier": tier, "seed": seed, "scenario": sc, "result": v}, "", " ")
 		os.WriteFile(path, b, 0o644)
+		exit = 1
+		if unlisted > 6 {
+			continue
+		}
 		fmt.Printf("VIOLATION property=%s replay=%s\n", p.ID, path)
 		fmt.Printf("  clause=%s key=%s %s\n", v.Clause, v.FindingKey, v.Detail)
-		exit = 1
 	}
 	conclusive := held + len(violations)
 	minC := p.MinConclusive
